@@ -10,7 +10,7 @@ EXPLANATION = ("Bounded symbolic execution of the MIR of TopNVoting::winners and
                "track). HashMap iteration order is a fresh nondeterministic permutation per traversal, so the verdict covers "
                "every iteration order; because the oracle is a function of the stream as a multiset (up to f32/f64 summation "
                "order and ties), agreement with it for every stream gives order independence. SortVoting: see C02; VisualVoting: C12.")
-ASSUMPTIONS = ["streams of <= 2 results (quick) / 4 (thorough) over <= 2 queries x <= 2 tracks; ids pairwise distinct",
+ASSUMPTIONS = ["free streams of <= 2 results (quick) / 3 (thorough), fixed-structure streams of 3 (quick) / 4 (thorough) results over <= 2 queries x <= 2 tracks; ids pairwise distinct",
                "distances: None or a value of the exact grid {0,.25,.5,1,2,3,4,8} selected by a symbolic index (all float arithmetic folded exactly per value)", "max_distance from {0,.25,.375,.5,.75,1,1.5,2,2.5,3,3.5,4,6,8,16}: every order relation with the distance grid (equal to / between grid points)", "ties in weight accepted in either order",
                "HashMap iteration order: every permutation (nondeterministic); into_group_map keeps stream order inside a group (itertools contract)",
                "sort_by is a stable sort (std contract)"]
@@ -259,7 +259,7 @@ fn replay() {
 TN = "similari::track::voting::topn::TopNVoting::winners"
 BF = "similari::track::voting::best::BestFitVoting::winners"
 MIR = []
-for (nq, nt, nr, tier) in [(1, 1, 1, 'quick'), (1, 2, 2, 'quick'), (2, 2, 2, 'quick'), (2, 2, 3, 'thorough'), (2, 2, 4, 'thorough'), (2, 3, 3, 'thorough'), (3, 2, 3, 'thorough')]:
+for (nq, nt, nr, tier) in [(1, 1, 1, 'quick'), (1, 2, 2, 'quick'), (2, 2, 2, 'quick'), (2, 2, 3, 'thorough')]:   # larger free streams (r4, 2x3, 3x2) did not finish within 55 min: replaced by the fixed-structure queries below
     MIR.append(MQ("c17_topn_q%d_t%d_r%d" % (nq, nt, nr), tier, _mk_topn(nq, nt, nr),
                   "TopNVoting::winners = oracle (counts, weights, <= N per query by decreasing weight), for every HashMap iteration order",
                   "%d queries x %d tracks, stream of %d results (ids chosen by z3), distances on the exact grid or None, N,min_votes <= 3, max_distance free" % (nq, nt, nr),
@@ -272,6 +272,7 @@ for (nq, nt, nr, tier) in [(1, 1, 1, 'quick'), (1, 2, 2, 'quick'), (2, 2, 2, 'qu
 # second query for one of them; one pair's distances interleaved with another pair's
 for nm, mkq, fn_, (nq, nt, fixed) in [("c17_bestfit_contest", _mk_bestfit, BF, (2, 2, [(0, 0), (0, 1), (1, 1)])),
                                       ("c17_bestfit_contest4", _mk_bestfit, BF, (2, 2, [(0, 0), (1, 1), (0, 1), (1, 1)])),
+                                      ("c17_bestfit_three", _mk_bestfit, BF, (3, 2, [(0, 0), (1, 0), (2, 1)])),
                                       ("c17_topn_interleaved", _mk_topn, TN, (1, 2, [(0, 0), (0, 1), (0, 0)])),
                                       ("c17_topn_interleaved4", _mk_topn, TN, (2, 2, [(0, 0), (1, 1), (0, 0), (0, 1)]))]:
     MIR.append(MQ(nm, 'thorough' if nm.endswith('4') else 'quick', mkq(nq, nt, len(fixed), fixed), "same oracle on a fixed stream structure %r (ids and distances symbolic)" % (fixed,),
